@@ -14,6 +14,11 @@ class Boom(Exception):
     pass
 
 
+class BoomBase(BaseException):
+    """A failure of the wrapped function that is not an `Exception` (a control-flow exception deriving from
+    BaseException): for the property it is a failed computation like any other."""
+
+
 class CEnv:
     def __init__(self, S):
         self.S = S
@@ -290,6 +295,8 @@ def run_scenario(scn, seed, pct=0, choices=None, preempt=None):
             if scn['fails'][me % 8]:
                 rec['out'] = ('raise', me)
                 E.obs.append(f'ie:{c}:1:{me}')
+                if (me + len(scn['loops'])) % 3 == 1:
+                    raise BoomBase(me)
                 raise Boom(me)
             rec['out'] = ('ok', me)
             E.obs.append(f'ie:{c}:0:{me}')
@@ -330,7 +337,7 @@ def run_scenario(scn, seed, pct=0, choices=None, preempt=None):
                     r = await w(cs['key'])
                     E.obs.append(f'rt:{c}:0:{r[1]}')
                     E.results[c] = dict(loop=li, key=cs['key'], t0=t0, t1=S.vt, out=('ok', r[1]))
-                except Boom as e:
+                except (Boom, BoomBase) as e:
                     E.obs.append(f'rt:{c}:1:{e.args[0]}')
                     E.results[c] = dict(loop=li, key=cs['key'], t0=t0, t1=S.vt, out=('boom', e.args[0]))
                 except asyncio.CancelledError:
